@@ -23,7 +23,15 @@ E1 (explicit-state exploration on the real objects)
     (thorough: an additional 4-key run with 2 pending).  Collector (configurations with declared columns): dict
     rows with a missing / an extra name; if refused, the collector must still hold exactly the model's rows (no
     partial append); if accepted the case is not judged and not explored further.
-  * Guard for the de-duplication argument: ALL operation sequences up to a smaller depth are executed unpruned.
+  * Read operations (round 3): a history is replayed on a fresh object and judged by the read-out after its last
+    operation, so reads were never INSIDE a history.  Every public read-out is now an operation of the alphabet
+    (table: t.k / t[k] / k in t per key, t[i] per position, keys(), len, shape(), iteration, items(), data(), and
+    the whole read-out at once; collector: to_dict(), rc[col], rc.col per column, size/len/shape,
+    to_dataframe().to_string(), all at once).  Their own result is not judged; a read that changes vars(object)
+    (e.g. fills a cache) yields a NEW canonical state, which is then explored like any other, and the read-out
+    after every later operation must still equal the model (a stale cache shows up as attr-differs etc.).
+  * Guard for the de-duplication argument: ALL operation sequences up to a smaller depth are executed unpruned
+    (with the single read operation "whole read-out").
 E2 (complete enumeration)
   * DataPlotGrid: every (n, ncols, list|dict, normal|transposed): data cells + missing cells are pairwise distinct,
     cover {0..nrows-1}x{0..ncols-1} exactly once, indices run 0..nrows*ncols-1 in order, payload is the data in
@@ -55,7 +63,8 @@ RULE = ("E1 case = one transition (canonical implementation state, operation) of
         "re-insert, sort or append after rows exist).  The unpruned guard pass (all sequences up to a smaller depth) "
         "is counted in evaluations/transitions only.  E2 case = one (n, ncols, list|dict, normal|transposed) grid "
         "(non-trivial: n >= 2) or one (shape or equality patterns of the item lists, value variant) combination "
-        "(non-trivial: >= 2 lists).  Refused operations (fault transitions) are ordinary transitions of the graph")
+        "(non-trivial: >= 2 lists).  Refused operations (fault transitions) and public read-outs (read operations) "
+        "are ordinary transitions of the graph")
 ASSUMPTIONS = [
     "vars(object) (recursively, incl. value types and numpy dtypes) is all the state the four classes hold, so two "
     "histories ending in the same canonical state have equal futures; guarded by executing every operation "
@@ -202,7 +211,55 @@ def _pt_new(keyed, root, cfg):
     return ParameterTable(list(FIELDS), params), [tuple(v) for v in params]
 
 
-def _pt_ops(keyed, cfg, model=None):
+def _pt_reads(keyed, cfg, fine):
+    """READ operations of the alphabet (a public read-out may have side effects, e.g. a cache): fine = every
+    accessor separately (per key / per position), otherwise one operation performing the whole read-out"""
+    if not fine:
+        return [["read", "all"]]
+    ops = []
+    if keyed:
+        for k in cfg["keys"]:
+            ops += [["read", "attr", k], ["read", "key", k], ["read", "in", k]]
+        for i in range(len(cfg["keys"]) + 1):
+            ops.append(["read", "pos", i])
+        ops += [["read", "keys"]]
+    else:
+        for i in range(cfg["upos"]):
+            ops.append(["read", "pos", i])
+    ops += [["read", "len"], ["read", "shape"], ["read", "iter"], ["read", "items"], ["read", "data"],
+            ["read", "all"]]
+    return ops
+
+
+def _pt_read(t, keyed, op, cfg):
+    """perform one read operation; its own outcome is not judged (the read-out after the history is)"""
+    kind = op[1]
+    if kind == "attr":
+        _obs(lambda: getattr(t, op[2]))
+    elif kind == "key":
+        _obs(lambda: t[op[2]])
+    elif kind == "in":
+        _obs(lambda: op[2] in t)
+    elif kind == "pos":
+        _obs(lambda: t[op[2]])
+    elif kind == "keys":
+        _obs(lambda: list(t.keys()))
+    elif kind == "len":
+        _obs(lambda: len(t))
+    elif kind == "shape":
+        _obs(lambda: t.shape())
+    elif kind == "iter":
+        _obs(lambda: _iter_capped(t, 12))
+    elif kind == "items":
+        _obs(lambda: [(k, r.data()) for k, r in t.items()])
+    elif kind == "data":
+        _obs(lambda: t.data())
+    else:
+        n = _obs(lambda: len(t))
+        _pt_readout(t, n[1] if n[0] == "ok" and isinstance(n[1], int) and 0 <= n[1] < 12 else 0, keyed, cfg)
+
+
+def _pt_ops(keyed, cfg, model=None, fine=True):
     """operations enabled in the state described by the model.  Deviation bound: a refused assignment of a NEW key
     is enabled only while fewer than cfg['pending'] such refusals are unresolved (not yet retried / deleted)."""
     ops = []
@@ -225,7 +282,7 @@ def _pt_ops(keyed, cfg, model=None):
         for i in range(cfg["upos"]):
             ops.append(["del", i])
         ops.append(["append!"])
-    return ops
+    return ops + _pt_reads(keyed, cfg, fine)
 
 
 def _dedup(cands):
@@ -238,7 +295,7 @@ def _dedup(cands):
     return out
 
 
-def _pt_apply(t, m, keyed, op):
+def _pt_apply(t, m, keyed, op, cfg=None):
     """Apply op to the real table and to the model; returns (expected kind or None, observed outcome, model).
 
     Keyed model = list of candidate insertion-ordered dicts.  The statement does not say what a REFUSED assignment
@@ -248,6 +305,9 @@ def _pt_apply(t, m, keyed, op):
     position), a delete removes it whatever its outcome.  Expected kind None = outcome of the operation not judged."""
     def _del(x):
         del t[x]
+    if op[0] == "read":
+        _pt_read(t, keyed, op, cfg)
+        return None, ["ok", None], m
     if keyed:
         kinds = set()
         if op[0] in ("append", "set"):
@@ -393,7 +453,11 @@ def _pt_tags(keyed, hist, cfg):
         n = hist[0][1]
         live = set(cfg["keys"][:n])
     peak = n
-    for op in hist[1:]:
+    for j, op in enumerate(hist[1:], start=1):
+        if op[0] == "read":
+            if j < len(hist) - 1:
+                tags.append("after-read:" + op[1])    # a read-out happened before later operations
+            continue
         if keyed:
             if op[0] in ("append", "set"):
                 if op[1] in live:
@@ -452,7 +516,7 @@ def _pt_run(keyed, hist, cfg):
     t, m = _pt_new(keyed, hist[0], cfg)
     kind, got = "ok", ["ok", None]
     for op in hist[1:]:
-        kind, got, m = _pt_apply(t, m, keyed, op)
+        kind, got, m = _pt_apply(t, m, keyed, op, cfg)
     case = dict(part=sub, tier_bounds=dict(keys=cfg["keys"]), history=hist)
     if kind is not None and got[0] != kind:
         return t, m, failure(sub, case, "operation %s" % kind, got, tags=_pt_tags(keyed, hist, cfg),
@@ -498,7 +562,33 @@ def _rc_new(cname, root):
     return rc, dict(cols=list(COLS), rows=[tuple(r) for r in (rows or [])])
 
 
-def _rc_ops(cname, model):
+def _rc_reads(fine):
+    """READ operations (public read-outs may have side effects)"""
+    if not fine:
+        return [["read", "all"]]
+    ops = [["read", "dict"], ["read", "size"], ["read", "frame"]]
+    for col in COLS:
+        ops += [["read", "item", col], ["read", "attr", col]]
+    return ops + [["read", "all"]]
+
+
+def _rc_read(rc, op):
+    """perform one read operation; its own outcome is not judged (the read-out after the history is)"""
+    kind = op[1]
+    if kind in ("dict", "all"):
+        _obs(lambda: {k: list(v) for k, v in rc.to_dict().items()})
+    if kind in ("size", "all"):
+        _obs(lambda: (rc.size(), len(rc), rc.shape()))
+    if kind in ("frame", "all"):
+        _obs(lambda: rc.to_dataframe().to_string())
+    for col in COLS:
+        if kind == "all" or (kind == "item" and op[2] == col):
+            _obs(lambda: list(rc[col]))
+        if kind == "all" or (kind == "attr" and op[2] == col):
+            _obs(lambda: list(getattr(rc, col)))
+
+
+def _rc_ops(cname, model, fine=True):
     """operations enabled in the state described by the model"""
     c = RC_CFG[cname]
     ops = []
@@ -507,7 +597,7 @@ def _rc_ops(cname, model):
             ops.append(["dict", i, "xy"])
             ops.append(["dict", i, "yx"])
         if not model["cols"]:
-            return ops                       # nothing to sort by, list rows not demanded before columns exist
+            return ops + _rc_reads(fine)     # nothing to sort by, list rows not demanded before columns exist
     else:
         for i in range(len(c["rows"])):
             ops.append(["list", i])
@@ -518,7 +608,7 @@ def _rc_ops(cname, model):
     for col in COLS:
         ops.append(["sort", col, False])
         ops.append(["sort", col, True])
-    return ops
+    return ops + _rc_reads(fine)
 
 
 def _n(v):
@@ -589,6 +679,9 @@ def _rc_tags(cname, hist):
         tags.append("after-sort")
     if "dict!" in kinds[:-1]:
         tags.append("after-refused-append")
+    for op in hist[1:-1]:
+        if op[0] == "read":
+            tags.append("after-read:" + op[1])
     if kinds:
         last = hist[-1]
         tags.append("last=" + last[0])
@@ -617,6 +710,22 @@ def _rc_run(cname, hist):
                                       tags=_rc_tags(cname, hist), behaviour="ctor-rows-not-preserved")
         return rc, model, None
     for k, op in enumerate(hist[1:], start=1):
+        if op[0] == "read":
+            _rc_read(rc, op)
+            if k != last:
+                continue
+            try:                                     # a read must leave exactly the model's rows
+                got = _rc_rows(rc, model)
+            except _Diff as d_:
+                return rc, model, failure(sub, case, {d_.what: d_.exp}, {d_.what: d_.got},
+                                          tags=_rc_tags(cname, hist), behaviour="read-" + d_.what)
+            except Exception as e:
+                return rc, model, failure(sub, case, "read-out works", [type(e).__name__, str(e)[:200]],
+                                          tags=_rc_tags(cname, hist), behaviour="readout-raises:" + type(e).__name__)
+            if not _same(got, model["rows"]):
+                return rc, model, failure(sub, case, _rows_js(model["rows"]), _rows_js(got),
+                                          tags=_rc_tags(cname, hist), behaviour="read-changed-table")
+            continue
         if op[0] == "dict!":
             row = c["rows"][op[1]]
             d = {"x": row[0]} if op[2] == "missing" else {"x": row[0], "y": row[1], "z": 0}
@@ -720,10 +829,10 @@ def _e1_run(part, name, hist, cfg):
     return o[1]
 
 
-def _e1_ops(part, name, model, cfg):
+def _e1_ops(part, name, model, cfg, fine=True):
     if part == "pt":
-        return _pt_ops(name == "keyed", cfg, model if name == "keyed" else None)
-    return _rc_ops(name, model)
+        return _pt_ops(name == "keyed", cfg, model if name == "keyed" else None, fine)
+    return _rc_ops(name, model, fine)
 
 
 def _e1_roots(part, name):
@@ -810,18 +919,18 @@ def _seq(part, name, cfg, depth, first, sh):
             return
         sh.add_to_set("states", _digest(pre, canon(obj)))
         if len(hist) - 1 < depth:
-            for op in _e1_ops(part, name, model, cfg):
+            for op in _e1_ops(part, name, model, cfg, fine=False):
                 rec(hist + [op])
 
     obj, model, bad = _e1_run(part, name, root, cfg)
-    ops = _e1_ops(part, name, model, cfg)
+    ops = _e1_ops(part, name, model, cfg, fine=False)
     if first < len(ops):
         rec(root + [ops[first]])
 
 
 def _n_first_ops(part, name, cfg):
     _, model, _ = _e1_run(part, name, [["new"]], cfg)
-    return len(_e1_ops(part, name, model, cfg))
+    return len(_e1_ops(part, name, model, cfg, fine=False))
 
 
 # ================================================================================================ E2: grid
@@ -1102,8 +1211,10 @@ def finish(total, tier, seed):
     if clean:
         need = ["pt-keyed:del", "pt-keyed:set", "pt-keyed:append", "pt-unkeyed:del", "grid:with-missing-cells",
                 "grid:complete", "combination:empty-product", "combination:non-empty-product",
-                "combination:with-equal-values-in-a-list", "pt-keyed:set!", "pt-keyed:append!", "pt-unkeyed:append!"]
+                "combination:with-equal-values-in-a-list", "pt-keyed:set!", "pt-keyed:append!", "pt-unkeyed:append!",
+                "pt-keyed:read", "pt-unkeyed:read"]
         need += ["rc-%s:sort" % n for n in RC_CFG] + ["rc-%s:dict" % n for n in RC_CFG]
+        need += ["rc-%s:read" % n for n in RC_CFG]
         need += ["rc-%s:dict!" % n for n in RC_CFG if RC_CFG[n]["cols"] is not None]
         miss = [k for k in need if not h.get(k)]
         if miss:
@@ -1121,10 +1232,11 @@ def finish(total, tier, seed):
 
 MANIFEST = dict(
     text="Explicit-state BFS on the real ParameterTable (keyed: 4 keys x 2 records, append/setitem/delete incl. absent "
-         "keys and REFUSED assignments (record cannot be built) as fault transitions, roots empty and "
+         "keys, REFUSED assignments (record cannot be built) as fault transitions and every public read-out as a "
+         "read operation (reads may have side effects), roots empty and "
          "constructor-filled; un-keyed: 3 records, positional delete, refused append) to the fixed point of the "
          "state graph (depth bound 6) and on the real RowCollector in 5 configurations (list/array mode, declared, "
-         "typed and dict-defined columns; append list/dict, refused dict rows, sort by every column asc/desc, rows "
+         "typed and dict-defined columns; append list/dict, refused dict rows, read operations, sort by every column asc/desc, rows "
          "with ties) to depth 5, de-duplicated on vars(object); after every transition the complete public read-out "
          "is compared with an insertion-ordered dict / list / list of rows (sort: monotone column, multiset of rows "
          "unchanged). All operation sequences up to depth 3 are additionally executed unpruned. Complete enumeration "
